@@ -398,62 +398,95 @@ def len_constraint(ev: Ev, target_src: str) -> Optional[Tuple[int, Optional[int]
     return _len_interval(test, target_src, taken)
 
 
-def _len_interval(test: ast.AST, target: str, truth: bool) -> Optional[Tuple[int, Optional[int]]]:
-    # truthiness of the sequence itself (E-NORM N18): `if x:` bounds len(x) >= 1, `if not x:` fixes it at 0
+_LEN_TOP = 12          # lengths 0..11 are tracked exactly, _LEN_TOP stands for "12 or more"
+_LEN_ALL = frozenset(range(_LEN_TOP + 1))
+
+
+def len_values(test: ast.AST, target: str, truth: bool, aliases: Optional[Dict[str, ast.AST]] = None) -> Optional[frozenset]:
+    """The set of lengths of <target> compatible with `test` having the given truth value (None: the test says nothing about it).
+    Understands len(x) <op> k, k <op> len(x), len(x) in/not in (k1, k2, ..), truthiness of x itself, not, and/or; `aliases` maps locals that
+    are bound once to len(<expr>) to that expression (n = len(x); if n == 2)."""
     while isinstance(test, ast.UnaryOp) and isinstance(test.op, ast.Not):
         truth = not truth
         test = test.operand
-    if ast.unparse(test) == target and isinstance(test, (ast.Name, ast.Attribute, ast.Subscript)):
-        return (1, None) if truth else (0, 0)
-    return _len_interval_cmp(test, target, truth)
-
-
-def _len_interval_cmp(test: ast.AST, target: str, truth: bool) -> Optional[Tuple[int, Optional[int]]]:
-    while isinstance(test, ast.UnaryOp) and isinstance(test.op, ast.Not):
-        truth = not truth
-        test = test.operand
+    if isinstance(test, (ast.Name, ast.Attribute, ast.Subscript)) and ast.unparse(test) == target:
+        return frozenset(range(1, _LEN_TOP + 1)) if truth else frozenset({0})
     if isinstance(test, ast.BoolOp):
-        # and taken True: all hold; or taken False: none hold
-        if (isinstance(test.op, ast.And) and truth) or (isinstance(test.op, ast.Or) and not truth):
-            best = None
-            for v in test.values:
-                r = _len_interval(v, target, truth)
-                if r is not None:
-                    best = r if best is None else (max(best[0], r[0]), _min_opt(best[1], r[1]))
-            return best
-        return None
+        parts = [len_values(v, target, truth, aliases) for v in test.values]
+        conj = (isinstance(test.op, ast.And) and truth) or (isinstance(test.op, ast.Or) and not truth)
+        if conj:
+            known = [x for x in parts if x is not None]
+            if not known:
+                return None
+            out = _LEN_ALL
+            for x in known:
+                out = out & x
+            return out
+        if any(x is None for x in parts):
+            return None
+        out = frozenset()
+        for x in parts:
+            out = out | x
+        return out
     if not (isinstance(test, ast.Compare) and len(test.ops) == 1):
         return None
     l, op, r = test.left, test.ops[0], test.comparators[0]
 
     def is_len(x):
+        if aliases and isinstance(x, ast.Name) and x.id in aliases:
+            x = aliases[x.id]
         return isinstance(x, ast.Call) and isinstance(x.func, ast.Name) and x.func.id == "len" \
             and len(x.args) == 1 and ast.unparse(x.args[0]) == target
 
     def const(x):
-        return x.value if isinstance(x, ast.Constant) and isinstance(x.value, int) else None
+        return x.value if isinstance(x, ast.Constant) and isinstance(x.value, int) and not isinstance(x.value, bool) else None
 
+    if isinstance(op, (ast.In, ast.NotIn)) and is_len(l) and isinstance(r, (ast.Tuple, ast.List, ast.Set)) and all(const(e) is not None for e in r.elts):
+        inside = frozenset(min(const(e), _LEN_TOP) for e in r.elts if const(e) >= 0)
+        pos = isinstance(op, ast.In) == truth
+        return inside if pos else _LEN_ALL - frozenset(x for x in inside if x < _LEN_TOP)
     if is_len(l) and const(r) is not None:
-        n, o = const(r), op
+        n, o = const(r), type(op)
     elif is_len(r) and const(l) is not None:
         n = const(l)
-        o = {ast.Lt: ast.Gt(), ast.Gt: ast.Lt(), ast.LtE: ast.GtE(), ast.GtE: ast.LtE()}.get(type(op), op)
+        o = {ast.Lt: ast.Gt, ast.Gt: ast.Lt, ast.LtE: ast.GtE, ast.GtE: ast.LtE}.get(type(op), type(op))
     else:
         return None
-    t = type(o)
-    if not truth:
-        t = {ast.Eq: ast.NotEq, ast.NotEq: ast.Eq, ast.Lt: ast.GtE, ast.GtE: ast.Lt, ast.Gt: ast.LtE, ast.LtE: ast.Gt}.get(t)
-    if t is ast.Eq:
-        return (n, n)
-    if t is ast.GtE:
-        return (n, None)
-    if t is ast.Gt:
-        return (n + 1, None)
-    if t is ast.Lt:
-        return (0, n - 1)
-    if t is ast.LtE:
-        return (0, n)
-    return None  # NotEq constrains nothing useful
+    fn = {ast.Eq: lambda v: v == n, ast.NotEq: lambda v: v != n, ast.Lt: lambda v: v < n, ast.LtE: lambda v: v <= n,
+          ast.Gt: lambda v: v > n, ast.GtE: lambda v: v >= n}.get(o)
+    if fn is None or n >= _LEN_TOP:
+        return None
+    # _LEN_TOP represents every length >= _LEN_TOP: it stays possible unless the relation excludes all of them
+    vals = set()
+    for v in range(_LEN_TOP):
+        if fn(v) == truth:
+            vals.add(v)
+    if fn(_LEN_TOP) == truth or fn(10 ** 6) == truth:
+        vals.add(_LEN_TOP)
+    return frozenset(vals)
+
+
+def len_aliases(fn: ast.AST) -> Dict[str, ast.AST]:
+    """locals of fn bound exactly once, by `n = len(<expr>)`"""
+    count: Dict[str, int] = {}
+    val: Dict[str, ast.AST] = {}
+    for n in ast.walk(fn):
+        if isinstance(n, ast.Name) and isinstance(n.ctx, (ast.Store, ast.Del)):
+            count[n.id] = count.get(n.id, 0) + 1
+        if isinstance(n, ast.Assign) and len(n.targets) == 1 and isinstance(n.targets[0], ast.Name) and isinstance(n.value, ast.Call) \
+                and isinstance(n.value.func, ast.Name) and n.value.func.id == "len" and len(n.value.args) == 1:
+            val[n.targets[0].id] = n.value
+    return {k: v for k, v in val.items() if count.get(k) == 1}
+
+
+def _len_interval(test: ast.AST, target: str, truth: bool) -> Optional[Tuple[int, Optional[int]]]:
+    vs = len_values(test, target, truth)
+    if vs is None or not vs:
+        return None
+    if vs == _LEN_ALL:
+        return None
+    hi = max(vs)
+    return (min(vs), None if hi == _LEN_TOP else hi)
 
 
 def _min_opt(a, b):
